@@ -147,4 +147,26 @@ theorem saturate_exact (step : α → List α) (U S0 : List α) (fuel : Nat)
     | step _ hxy ih => exact hcl _ (List.mem_flatMap.mpr ⟨_, ih, hxy⟩)
 
 end
+/-- a graph whose edges stay inside its node list -/
+def DG.WFG (g : DG) : Prop := ∀ e ∈ g.edges, e.1 ∈ g.nodes ∧ e.2 ∈ g.nodes
+
+theorem DG.mem_parents (g : DG) (u v : Var) : u ∈ g.parents v ↔ (u, v) ∈ g.edges := by
+  unfold DG.parents
+  simp only [List.mem_map, List.mem_filter]
+  constructor
+  · rintro ⟨e, ⟨he, h2⟩, rfl⟩
+    have : e.2 = v := by simpa using h2
+    rw [← this]; exact he
+  · intro h; exact ⟨(u, v), ⟨h, by simp⟩, rfl⟩
+
+theorem DG.mem_children (g : DG) (u v : Var) : v ∈ g.children u ↔ (u, v) ∈ g.edges := by
+  unfold DG.children
+  simp only [List.mem_map, List.mem_filter]
+  constructor
+  · rintro ⟨e, ⟨he, h2⟩, rfl⟩
+    have : e.1 = u := by simpa using h2
+    rw [← this]; exact he
+  · intro h; exact ⟨(u, v), ⟨h, by simp⟩, rfl⟩
+
+
 end PgmVerif
